@@ -553,7 +553,10 @@ func checkC03(c *Ctx) {
 	c3Slices(c)
 	c3Time(c)
 	c3NilError(c)
+	c3DeepTypes = map[string]bool{}
 	c3Equals(c, byType)
+	c.Rule("R3.10", "payloads that Field.Equals compares with reflect.DeepEqual are never functions (DeepEqual of non-nil functions is false: such a field would not equal itself)", 10)
+	c3NoFuncPayload(c, "R3.10", byType)
 	c3NilPlaceholder(c)
 	c.Rule("R3.9", "float payloads are unpacked as bit patterns: Float64frombits/Float32frombits of the Integer slot, no float-to-float conversion on the way", 2)
 	c3FloatBits(c, "R3.9")
@@ -1053,6 +1056,92 @@ func c3Any(c *Ctx) {
 			_ = apk
 		}
 		c.Check(ok, "R3.3", "go.uber.org/zap.anyFieldC.Any", "assert-and-call", posOf(afd), "the adapter asserts the value to T and calls the constructor with the same key")
+		// ... and on every path on which the value IS a T, what Any returns is that constructor's field (a nil pointer
+		// that implements a marshaler interface is still handed to the interface's constructor): by path exploration
+		if afn := c.Method(ZapPath, "anyFieldC", "Any"); c.Anchor("R3.3", "zap.anyFieldC.Any (SSA)", afn != nil && len(afn.Params) == 3) {
+			recv, key, val := afn.Params[0], afn.Params[1], afn.Params[2]
+			resolve := func(st *ConcState, v ssa.Value) ssa.Value {
+				for k := 0; k < 12; k++ {
+					if ct, ok := v.(*ssa.ChangeType); ok {
+						v = ct.X
+						continue
+					}
+					nx := st.Step(v)
+					if nx == nil {
+						break
+					}
+					v = nx
+				}
+				return v
+			}
+			seqs, trunc := ConcPaths(afn, ConcCfg{
+				Event: func(in ssa.Instruction, st *ConcState) string {
+					r, isR := in.(*ssa.Return)
+					if !isR || len(r.Results) != 1 {
+						return ""
+					}
+					cl, isCall := resolve(st, r.Results[0]).(*ssa.Call)
+					if !isCall || cl.Call.IsInvoke() || cl.Call.StaticCallee() != nil || len(cl.Call.Args) != 2 {
+						return "ret-other(" + st.Desc(r.Results[0]) + ")"
+					}
+					fv := resolve(st, cl.Call.Value)
+					if ld, isLd := fv.(*ssa.UnOp); isLd {
+						if fa, isFA := ld.X.(*ssa.FieldAddr); isFA {
+							fv = resolve(st, fa.X)
+						}
+					}
+					a1 := resolve(st, cl.Call.Args[1])
+					okArg := false
+					switch y := a1.(type) {
+					case *ssa.Extract:
+						if ta, isTA := y.Tuple.(*ssa.TypeAssert); isTA && y.Index == 0 && resolve(st, ta.X) == ssa.Value(val) {
+							okArg = true
+						}
+					case *ssa.TypeAssert:
+						okArg = resolve(st, y.X) == ssa.Value(val)
+					}
+					if fv == ssa.Value(recv) && resolve(st, cl.Call.Args[0]) == ssa.Value(key) && okArg {
+						return "ret-ctor"
+					}
+					return "ret-other(" + st.Desc(r.Results[0]) + ")"
+				},
+				Branch: func(cond ssa.Value, taken bool, st *ConcState) string {
+					pol := taken
+					for k := 0; k < 8; k++ {
+						if u, ok := cond.(*ssa.UnOp); ok && u.Op == token.NOT {
+							cond, pol = u.X, !pol
+							continue
+						}
+						if nx := st.Step(cond); nx != nil {
+							cond = nx
+							continue
+						}
+						break
+					}
+					if ex, ok := cond.(*ssa.Extract); ok && ex.Index == 1 {
+						if ta, isTA := ex.Tuple.(*ssa.TypeAssert); isTA && resolve(st, ta.X) == ssa.Value(val) {
+							if pol {
+								return "is-T"
+							}
+							return "not-T"
+						}
+					}
+					return ""
+				},
+			})
+			var bad []string
+			nCtor := 0
+			for _, sq := range seqs {
+				if strings.HasSuffix(sq, "ret-ctor") {
+					nCtor++
+					continue
+				}
+				if !strings.Contains(sq, "not-T") {
+					bad = append(bad, sq)
+				}
+			}
+			c.Check(!trunc && nCtor > 0 && len(bad) == 0, "R3.3", afn.String(), "value-of-T-reaches-constructor", afn.Pos(), "on every path of the adapter on which the value is a T (every path that did not establish the opposite) the result is the typed constructor's field for (key, value) - %d paths, offending: %v", len(seqs), bad)
+		}
 	}
 }
 
@@ -1431,6 +1520,9 @@ func c3Equals(c *Ctx, byType map[string][]fieldLit) {
 					}
 				}
 			}
+			if strings.Contains(sq, "DeepEqual") {
+				c3DeepTypes[tn] = true
+			}
 			if strings.Contains(sq, "bytes.Equal") {
 				for _, l := range byType[tn] {
 					if e, has := l.slots["Interface"]; has && TypeName(l.pk.TypesInfo.TypeOf(e)) != "[]byte" {
@@ -1606,4 +1698,120 @@ func c3FloatBits(c *Ctx, rule string) {
 	if n != 2 {
 		c.Bad(rule, fn.String(), "float-bits/count", fn.Pos(), "expected Float64Type and Float32Type, decided %d", n)
 	}
+}
+
+// c3DeepTypes: the field types whose payloads Field.Equals compares with reflect.DeepEqual (found by c3Equals' path
+// exploration).
+var c3DeepTypes = map[string]bool{}
+
+// c3NoFuncPayload: for every field type that Equals compares with reflect.DeepEqual, every constructor call inside
+// the analysed packages hands over a payload whose static type holds no function: reflect.DeepEqual reports two
+// non-nil functions as different even when they are the same, so a field carrying one does not equal itself and
+// Equals stops being reflexive.
+func c3NoFuncPayload(c *Ctx, rule string, byType map[string][]fieldLit) {
+	var holdsFunc func(t types.Type, d int) bool
+	holdsFunc = func(t types.Type, d int) bool {
+		if t == nil || d > 3 {
+			return false
+		}
+		switch u := types.Unalias(t).Underlying().(type) {
+		case *types.Signature:
+			return true
+		case *types.Struct:
+			for i := 0; i < u.NumFields(); i++ {
+				if holdsFunc(u.Field(i).Type(), d+1) {
+					return true
+				}
+			}
+		case *types.Slice:
+			return holdsFunc(u.Elem(), d+1)
+		case *types.Array:
+			return holdsFunc(u.Elem(), d+1)
+		case *types.Pointer:
+			return holdsFunc(u.Elem(), d+1)
+		}
+		return false
+	}
+	type ctorParam struct {
+		fn  *types.Func
+		idx int
+		tn  string
+	}
+	var ctors []ctorParam
+	var tns []string
+	for tn := range c3DeepTypes {
+		tns = append(tns, tn)
+	}
+	sort.Strings(tns)
+	if len(tns) == 0 {
+		c.Bad(rule, "zapcore.Field.Equals", "deep-equal-types", token.NoPos, "no field type is compared with reflect.DeepEqual (the exploration of Equals found none)")
+		return
+	}
+	for _, tn := range tns {
+		for _, l := range byType[tn] {
+			e, has := l.slots["Interface"]
+			if !has {
+				continue
+			}
+			info := l.pk.TypesInfo
+			cname := l.pk.PkgPath + "." + l.fd.Name.Name
+			// the payload is a parameter of the constructor: its call sites decide; otherwise the expression itself
+			pi := -1
+			if id, ok := ast.Unparen(e).(*ast.Ident); ok {
+				k := 0
+				for _, fl := range l.fd.Type.Params.List {
+					for _, n := range fl.Names {
+						if info.Defs[n] != nil && info.Defs[n] == info.Uses[id] {
+							pi = k
+						}
+						k++
+					}
+				}
+			}
+			if pi >= 0 {
+				if fo, ok := info.Defs[l.fd.Name].(*types.Func); ok {
+					ctors = append(ctors, ctorParam{fo, pi, tn})
+				}
+				if t := info.TypeOf(e); t != nil {
+					if _, isIface := types.Unalias(t).Underlying().(*types.Interface); !isIface {
+						c.Check(!holdsFunc(t, 0), rule, cname, "payload/"+tn, e.Pos(), "the %s payload has static type %s, which holds no function", tn, TypeName(t))
+					}
+				}
+				continue
+			}
+			t := info.TypeOf(e)
+			c.Check(!holdsFunc(t, 0), rule, cname, "payload/"+tn, e.Pos(), "the %s payload has static type %s, which holds no function", tn, TypeName(t))
+		}
+	}
+	c.EachFuncDecl(func(pk *packages.Package, fd *ast.FuncDecl) {
+		if fd.Body == nil {
+			return
+		}
+		n := 0
+		ast.Inspect(fd.Body, func(nd ast.Node) bool {
+			call, ok := nd.(*ast.CallExpr)
+			if !ok {
+				return true
+			}
+			callee := CalleeOf(pk.TypesInfo, call)
+			if callee == nil {
+				return true
+			}
+			for _, ct := range ctors {
+				if callee.Origin() != ct.fn || ct.idx >= len(call.Args) {
+					continue
+				}
+				t := pk.TypesInfo.TypeOf(call.Args[ct.idx])
+				if t == nil {
+					continue
+				}
+				if _, isIface := types.Unalias(t).Underlying().(*types.Interface); isIface {
+					continue // handed on as an interface: decided where the concrete value is made
+				}
+				n++
+				c.Check(!holdsFunc(t, 0), rule, pk.PkgPath+"."+fd.Name.Name, "call/"+ct.fn.Name()+"#"+itoa(n), call.Pos(), "%s is handed a payload of static type %s (compared by reflect.DeepEqual as a %s field), which holds no function", ct.fn.Name(), TypeName(t), ct.tn)
+			}
+			return true
+		})
+	})
 }
